@@ -181,7 +181,8 @@ impl<'v> CheapCallStack<'v> {
     /// either there the stack is empty, or the top of the stack lacks location
     /// information (e.g. called from Rust).
     pub(crate) fn top_frame(&self) -> Option<Frame> {
-        Some(self.stack.last().as_ref()?.to_frame())
+        // `stack` is the whole preallocated array: its top is at `count - 1`, not at the end.
+        Some(self.stack[self.count.checked_sub(1)?].to_frame())
     }
 
     /// The location at the top of the stack. May be `None` if
